@@ -35,7 +35,7 @@ ASSUMPTIONS = [
     "portfolio-relative cells of open_positions (weights, row-numbered formulas) are excluded from the asset-subset relation",
 ]
 PROBES = ["reference_failed", "history_crashed_run", "history_io_faulted_run", "history_input_faulted_run", "history_left_torn_tmp", "stale_same_name_report_replaced",
-          "order_permutation_changed_bytes", "subset_two_assets_share_row_numbers", "subset_with_window", "host_jump_fired", "multi_asset_case", "crash_point_sweep", "history_reports_edited_by_user", "history_interrupted_run"]
+          "order_permutation_changed_bytes", "subset_two_assets_share_row_numbers", "subset_with_window", "host_jump_fired", "multi_asset_case", "crash_point_sweep", "history_reports_edited_by_user", "history_interrupted_run", "twin_lot_hash_sweep"]
 
 
 def make_case(seed, facts, index=0):
@@ -518,4 +518,74 @@ def extra_phase(tier, master, facts, src, log):
             o["stats"]["probe:crash_point_sweep"] = 1
             o["stats"]["crash_point_sweep_runs"] = o["stats"].get("runs", 0)
     log("C17 crash-restart sweep: %d worlds, %d crash points (stride %d), each followed by the run under test" % (n_worlds, sum(i["crash_points_used"] for i in info), stride))
-    return outs, {"coverage": {"crash_points_enumerated": info}}
+    # hash-seed sweep on twin-lot worlds: one disposal that takes part of two lots bought at the same instant (equal sort keys wherever the
+    # timestamp is the key), re-run under other string-hash seeds; dense where the sampled cases meet this shape only now and then
+    twin_cases = []
+    for k in range(TWIN_WORLDS[tier]):
+        twin_cases.append(_twin_lot_case(gen.case_seed(master, PROP + "-twin", k), facts, 3 * 10**9 + 5 * 10**8 + k))
+    twin_outs = engine.run_cases(PROP, twin_cases, src=src)
+    for o in twin_outs:
+        if "stats" in o:
+            o["stats"]["probe:twin_lot_hash_sweep"] = 1
+            o["stats"]["twin_lot_sweep_runs"] = o["stats"].get("runs", 0)
+    log("C17 twin-lot hash-seed sweep: %d worlds x 4 hash seeds" % len(twin_cases))
+    return outs + twin_outs, {"coverage": {"crash_points_enumerated": info, "twin_lot_worlds": len(twin_cases)}}
+
+
+TWIN_WORLDS = {"quick": 32, "thorough": 400}
+
+
+def _twin_lot_case(seed, facts, index):
+    from decimal import Decimal  # pylint: disable=import-outside-toplevel
+    import datetime as dt  # pylint: disable=import-outside-toplevel
+
+    rng = random.Random(seed)
+    country = rng.choice(["us", "us", "generic", "ie", "jp", "es"])
+    world = None
+    for _ in range(50):
+        world = W.gen_world(rng, {"n_assets": 1, "n_rows": 1, "permute": rng.random() < 0.5, "optional_cols": False, "shapes": False, "need_uid": True, "n_exchanges": 2, "n_holders": 1}, country)
+        if W.validate(world)[0]:
+            break
+    sheet = world["sheets"][0]
+    asset, ex, ho = sheet["name"], world["exchanges"][0], world["holders"][0]
+    ex2 = world["exchanges"][-1]
+    year = rng.randint(2016, 2023)
+    t0 = dt.datetime(year, rng.randint(1, 3), rng.randint(1, 28), rng.randint(0, 23), rng.randint(0, 59), rng.randint(0, 59), tzinfo=W.UTC)
+    t1 = t0 + dt.timedelta(days=rng.randint(5, 60), seconds=rng.randint(0, 80000))
+    ts = t0 + dt.timedelta(days=rng.randint(1, 4))
+    t2 = t1 + dt.timedelta(days=rng.randint(3, 90), seconds=rng.randint(0, 80000))
+
+    def amt():
+        # magnitudes from 1e-5 to 1e4: sums of fractions of very different size are where accumulation order shows in the last digit
+        return Decimal(rng.randint(1000, 99999999)) / Decimal(10) ** rng.choice([1, 3, 5, 7, 8, 8])
+
+    def price():
+        return Decimal(rng.randint(100, 9999999)) / Decimal(10) ** rng.choice([0, 2, 2, 4, 5])
+
+    def row(table, inst, uid, **kw):
+        r = {"timestamp": W.render_ts(inst, rng.choice([0, 0, 60, -300, 540]), "space"), "asset": asset, "unique_id": uid, "notes": None}
+        r.update(kw)
+        return r
+
+    a0, a1, a2 = amt(), amt(), amt()
+    small = (a0 / 7).quantize(Decimal("0.00000001")) or Decimal("0.00000001")
+    rest0 = a0 - small
+    part2 = (a2 / 3).quantize(Decimal("0.00000001")) or Decimal("0.00000001")
+    ins = [row("IN", t0, "%s-in-1" % asset, exchange=ex, holder=ho, transaction_type="BUY", spot_price=price(), crypto_in=a0, crypto_fee=None, fiat_in_no_fee=None, fiat_in_with_fee=None, fiat_fee=None),
+           row("IN", t1, "%s-in-2" % asset, exchange=ex, holder=ho, transaction_type="BUY", spot_price=price(), crypto_in=a1, crypto_fee=None, fiat_in_no_fee=None, fiat_in_with_fee=None, fiat_fee=None),
+           row("IN", t1, "%s-in-3" % asset, exchange=ex, holder=ho, transaction_type="BUY", spot_price=price(), crypto_in=a2, crypto_fee=None, fiat_in_no_fee=None, fiat_in_with_fee=None, fiat_fee=None)]
+    outs_ = [row("OUT", ts, "%s-ou-1" % asset, exchange=ex, holder=ho, transaction_type="SELL", spot_price=price(), crypto_out_no_fee=small, crypto_fee=Decimal(0), crypto_out_with_fee=None, fiat_out_no_fee=None, fiat_fee=None),
+             row("OUT", t2, "%s-ou-2" % asset, exchange=ex, holder=ho, transaction_type="SELL", spot_price=price(), crypto_out_no_fee=rest0 + a1 + part2, crypto_fee=Decimal(0), crypto_out_with_fee=None, fiat_out_no_fee=None, fiat_fee=None)]
+    del ex2
+    if rng.random() < 0.5:
+        ins[1], ins[2] = ins[2], ins[1]
+    sheet["tables"] = [{"type": "IN", "rows": ins, "gap": 1}, {"type": "OUT", "rows": outs_, "gap": 1}]
+    world["ties"] = True
+    world["methods"] = None
+    world["generators"] = None
+    methods = facts[country]["methods"]
+    opts = {"country": country, "method": rng.choice([None] + methods), "lang": None, "from": None, "to": None, "neg": False, "asset": None, "prefix": "", "outdir": "out",
+            "path_style": "rel", "files_in": "", "env": {"CURRENCY_CODE": "usd", "LONG_TERM_CAPITAL_GAINS": "365"} if country == "generic" else {}}
+    rels = [{"kind": "repeat", "sched_seed": rng.randint(1, 2**31), "hashseed": rng.randint(1, 2**32 - 1)} for _ in range(3)]
+    return {"property": PROP, "seed": seed, "index": index, "swarm": {"ties": True}, "world": world, "opts": opts, "host": dict(gen.BASE_HOST), "prestate": [], "readonly_inputs": False,
+            "relations": rels}
